@@ -182,14 +182,16 @@ _execute_single = execute
 # ---- injectivity beyond the enumerated lengths: pairs of near-identical untagged names built from the words
 # the encoding treats specially
 WORDS = ['_tagged', '__tagged', '___tagged', 'tagged', '_', '__', '_DOT_', 'DOT', 'a', 'b', 'a_b', 'a_DOT_b', 'wsp', 'a-b',
-         '~', '=', 'é', '\\', '-', '000', 'a=b', '_tagged_', 'x' * 40]
+         '~', '=', 'é', '\\', '-', '000', 'a=b', '_tagged_', 'x' * 40,
+         # nodes around the file-name length limit that differ only at the end
+         'n' * 250 + 'a', 'n' * 250 + 'b', 'n' * 251 + 'a', 'n' * 251 + 'b', 'n' * 254 + 'a', 'n' * 254 + 'b', 'n' * 300]
 
 
 @st.composite
 def pair_cases(draw):
   segs = draw(st.lists(st.sampled_from(WORDS), min_size=1, max_size=5))
   other = list(segs)
-  how = draw(st.integers(0, 6))
+  how = draw(st.integers(0, 7))
   i = draw(st.integers(0, len(segs) - 1))
   if how == 0:
     other[i] = '_' + other[i]
@@ -204,6 +206,10 @@ def pair_cases(draw):
     other = other[::-1]
   elif how == 5:
     other = other + [draw(st.sampled_from(WORDS))]
+  elif how == 6:
+    # only the last character of one node differs (and a long node often: beyond any truncation point)
+    i = max(range(len(other)), key=lambda k: len(other[k])) if draw(st.booleans()) else i
+    other[i] = other[i][:-1] + ('b' if other[i][-1] != 'b' else 'c')
   else:
     other = draw(st.lists(st.sampled_from(WORDS), min_size=1, max_size=5))
   return {'pair': ['.'.join(segs), '.'.join(other)], 'hash_filenames': draw(st.booleans()),
